@@ -123,11 +123,12 @@ CHECKS = {
 
 NOT_APPLICABLE = {
     "C08": "quantifier is the finite request/configuration space and the failure is a Python exception inside the compiler; executing the whole Python compiler on a symbolic format is out of reach of CrossHair (realises at enum/tuple/dict use); what remains is enumeration, a different technique (DESIGN.md §5)",
+    "C09": "every quantified input is concretised on first use: the real construction code hashes coordinates (dict keys in coordinates_to_tree) and ranges over dense dimensions, so a proxy execution degenerates to enumeration of coordinates with only values and compressed-only dimension sizes left symbolic; the defect found there at design time (items() permutation) is fixed in /repo (DESIGN.md §0)",
     "C13": "histories of CPython refcounting/gc/cffi ffi.gc/libc free: the code that matters is C behind the FFI; nothing installed executes it symbolically (DESIGN.md §5)",
     "C14": "thread interleavings of CPython, LLVM MCJIT and the cffi build lock: no engine here explores Python thread schedules symbolically (DESIGN.md §5)",
     "C15": "hash seeds, process boundaries and request histories are not inputs of a function a solver can quantify over; the cache-key clause ranges over a small finite set where a symbolic check degenerates to enumeration (DESIGN.md §5)",
 }
-PENDING = {pid: "check under construction in this round (see DESIGN.md §10 build order); not claimed until it runs quiet on the unchanged tree" for pid in ["C09"]}
+PENDING = {}
 
 
 def main():
